@@ -79,6 +79,10 @@ class Findings:
             print(f"  identity: {identity}")
             print(f"  what: {what[:600]}")
             shown += 1
+        if os.environ.get("VERIF_LIST_IDENTITIES"):
+            # maintenance aid: the complete identity list of this run (for a human to review and commit)
+            for identity in sorted(self.violations):
+                print("IDENTITY " + json.dumps(identity))
         if len(self.violations) > shown:
             print(f"  ... {len(self.violations) - shown} further distinct violation identities not written")
         return len(self.violations), sum(self.known_hits.values())
